@@ -26,6 +26,26 @@ Theorem C06_frames_tile : forall se n a bp,
 Proof. exact frames_tile. Qed.
 Print Assumptions C06_frames_tile.
 
+(* the break-point vector the stacked-time simulator builds: a column is a break point iff it is the first one,
+   or some unanticipated shock is finite and non-zero there, or the plan endogenizes an unanticipated shock there;
+   it has the length of the base span and its first entry set, so C06_frames_tile applies to it *)
+Theorem C06_update_break_points_spec : forall V (nz : V -> bool) bp arr,
+  Forall (fun r => length r = length bp) arr ->
+  length (update_break_points nz bp arr) = length bp
+  /\ forall k, nth k (update_break_points nz bp arr) false
+               = nth k bp false || existsb (fun r => nth k (map nz r) false) arr.
+Proof. exact update_break_points_spec. Qed.
+Print Assumptions C06_update_break_points_spec.
+
+Theorem C06_break_points_wf : forall V (nz : V -> bool) n ucut pcut,
+  (0 < n)%nat ->
+  match ucut with Some a => Forall (fun r => length r = n) a | None => True end ->
+  match pcut with Some a => Forall (fun r => length r = n) a | None => True end ->
+  length (populate_base_break_points nz n ucut pcut) = n
+  /\ hd false (populate_base_break_points nz n ucut pcut) = true.
+Proof. exact populate_base_break_points_wf. Qed.
+Print Assumptions C06_break_points_wf.
+
 (* 2. period by period = one single-period frame per base period, one column to run, nothing pruned *)
 Theorem C06_pbp_is_single_period_frames : forall n a, (0 < n)%nat ->
   pbp_frames (zrange_from a n) = map (fun p => mkFrame p p p) (zrange_from a n).
